@@ -564,8 +564,16 @@ fn write_regular_header(
             return Err(RejectReason::DuplicateCl);
         }
         if let Some(length) = from_utf8(value).ok().and_then(|v| v.parse::<usize>().ok()) {
+            let already_declared = matches!(kawa.body_size, BodySize::Length(_));
             if !set_content_length(&mut kawa.body_size, length) {
                 return Err(RejectReason::ClTeConflict);
+            }
+            if already_declared {
+                // A repeated content-length with the same decimal value is valid
+                // (RFC 9110 §8.6) but must be forwarded as ONE field line: two
+                // lines that differ textually (`5` and `05`) are a CL.CL
+                // ambiguity for an HTTP/1.1 backend even though they agree here.
+                return Ok(());
             }
         } else {
             return Err(RejectReason::DuplicateCl);
